@@ -27,7 +27,28 @@ var (
 )
 
 func vC09Recover(sighash common.Hash, R, S, Vb *big.Int, homestead bool) (common.Address, error) {
+	if Vb != nil && Vb.IsInt64() && Vb.Int64() == 27+7 {
+		return common.Address{}, vC09ErrBadSig // the marker vC09BadSig puts on a transaction
+	}
 	return vC09From, nil
+}
+
+type vC09Err string
+
+func (e vC09Err) Error() string { return string(e) }
+
+var vC09ErrBadSig = vC09Err("verif: unrecoverable signature")
+
+// vC09BadSig gives tx a signature no key can have produced (recovery id 7): sender recovery
+// fails, natively in the real secp256k1 code and under the engine in the vC09Recover seam.
+func vC09BadSig(tx *etypes.Transaction) *etypes.Transaction {
+	sig := make([]byte, 65)
+	sig[31], sig[63], sig[64] = 1, 1, 7
+	bad, err := tx.WithSignature(etypes.FrontierSigner{}, sig)
+	if err != nil {
+		panic(err)
+	}
+	return bad
 }
 
 func vC09Sign(tx *etypes.Transaction) *etypes.Transaction {
